@@ -15,7 +15,7 @@ func (c *Chain) StoresCallIter(h util.Uint160, method string, max int, args ...a
 	require.NoError(c.T, err)
 	tx := c.NewScriptTx(nil, script)
 	tx.ValidUntilBlock = c.BC.BlockHeight() + 2
-	v, err := c.E.TestInvoke(tx)
+	v, err := c.TestInvoke(tx)
 	if err != nil {
 		return nil, err
 	}
